@@ -303,10 +303,10 @@ class Parameter(Accessible):
         """
         self.fixExport()
         if self.constant is not None:
-            constant = self.datatype(self.constant)
-            # The value of the `constant` property should be the
-            # serialised version of the constant, or unset
-            self.constant = self.datatype.export_value(constant)
+            # keep the internal value: finish() runs several times (class merge,
+            # copy, instance). the constant is serialised in for_export() and
+            # by the dispatcher
+            self.constant = self.datatype(self.constant)
             self.readonly = True
         for propname in 'default', 'value':
             if propname in self.propertyValues:
@@ -328,7 +328,10 @@ class Parameter(Accessible):
         return self.datatype.export_value(self.value)
 
     def for_export(self):
-        return dict(self.exportProperties(), readonly=self.readonly)
+        res = dict(self.exportProperties(), readonly=self.readonly)
+        if self.constant is not None:
+            res['constant'] = self.datatype.export_value(self.constant)
+        return res
 
     def getProperties(self):
         """get also properties of datatype"""
